@@ -302,6 +302,20 @@ def run_case(case):
                 res.check(sy0.shape == (ns, 17) and not np.any(sy0[:, 16]), "read_sync:nidq-threshold:weak-line", f"the same line read with the default threshold: {int(sy0[:, 16].sum())} samples high")
                 iw, sw_ = U.fronts(syw[:, 16]) if syw.shape == (ns, 17) else (np.array([]), np.array([]))
                 res.check(np.array_equal(iw, posw) and np.array_equal(np.sign(sw_), polw), "read_sync:nidq-threshold:weak-line:fronts", f"fronts of the weak line: {len(iw)} events, {len(posw)} written")
+            # the floor removal switched off (floor_percentile 0 / False / None) and an ABSOLUTE threshold: a line resting at 1.5..2.5 V with pulses 2..3 V
+            # higher, threshold half-way between the two levels (>= 1 V from both)
+            reca = G.make_nidq(rng, mn=mn, ma=ma, xa=1, dw=1, acq=None, mn_gain=1.0, aimax=10.0, ns=ns, fs=25000.0)
+            xa_, posa, pola = train(rng, ns, int(rng.integers(4, 30)), min_gap=5)
+            rest, amp_ = float(rng.uniform(1.5, 2.5)), float(rng.uniform(2.0, 3.0))
+            va = rest + np.where(xa_ == 1, amp_, 0.0) + rng.uniform(-0.02, 0.02, ns)
+            reca.raw[:, mn + ma] = np.clip(np.round(va / (10.0 / 32768)), -32768, 32767).astype(np.int16)
+            ba = G.write(reca, scratch() / "absolute")
+            with spikeglx.Reader(ba) as sra:
+                for fp in (0, False, None):
+                    sya = sra.read_sync(slice(0, ns), threshold=rest + amp_ / 2, floor_percentile=fp)
+                    res.check(sya.shape == (ns, 17) and np.array_equal(sya[:, 16], xa_), "read_sync:nidq-absolute-threshold",
+                              f"nidq analog line resting at {rest:.2f} V with {amp_:.2f} V pulses, read_sync(threshold={rest + amp_ / 2:.2f}, floor_percentile={fp!r}): "
+                              f"{int((sya[:, 16] != xa_).sum()) if sya.shape == (ns, 17) else '?'} samples differ from the written train", counter="analog_lines_checked")
             # an empty selection gives zero rows with the full line count (digital + analog), not an error
             for sl in (slice(7, 7), slice(ns, ns + 5), slice(5, 2)):
                 sy = sr.read_sync(sl)
